@@ -1,4 +1,89 @@
 //! Kani proof harnesses compiled as a child module of rosomaxa/src/population/greedy.rs (cfg(kani) only).
+//!
+//! C08 for `Greedy<Obj, Sol>` (the concrete instantiation is described in support.rs): inductive step from an
+//! arbitrary state, so histories of any length follow by induction.
+use super::*;
+use crate::verif_support::*;
+
+fn le(a: Float, b: Float) -> bool {
+    a.total_cmp(&b) != Ordering::Greater
+}
+
+// @verif props=C08 tier=quick ob=greedy_step fn=Greedy::add,Greedy::select,Greedy::ranked,Greedy::size bounds="arbitrary state (None|Some), one add; fitness = any i16 as f64; selection_size<=3"
+#[kani::proof]
+#[kani::unwind(5)]
+fn c08_greedy_add_step() {
+    let has_best: bool = kani::any();
+    let prev = any_sol(1);
+    let selection_size: usize = kani::any();
+    kani::assume(selection_size <= 3);
+    let mut pop = Greedy::new(Arc::new(Obj), selection_size, if has_best { Some(prev) } else { None });
+
+    let offered = any_sol(2);
+    let improved = pop.add(offered);
+
+    let best = pop.ranked().next().copied();
+    let best = best.expect("population is not empty after an addition");
+    // never worse than anything seen
+    assert!(le(best.f, offered.f));
+    assert!(!has_best || le(best.f, prev.f));
+    // it is one of the offered individuals, and the earlier one on ties
+    assert!((best.tag == 1 && has_best) || best.tag == 2);
+    assert!(improved == (best.tag == 2));
+    assert!(improved == (!has_best || offered.f.total_cmp(&prev.f) == Ordering::Less));
+    assert!(pop.size() == 1);
+    // selection returns only the stored individual, `selection_size` times
+    let mut count = 0;
+    for s in pop.select() {
+        assert!(s.tag == best.tag);
+        count += 1;
+    }
+    assert!(count == selection_size);
+    assert!(pop.all().count() == 1);
+    kani::cover!(improved && has_best, "improved");
+    kani::cover!(!improved, "kept");
+    std::mem::forget(pop);
+}
+
+// @verif props=C08 tier=quick ob=greedy_step fn=Greedy::add_all,Greedy::add bounds="arbitrary state (None|Some), batch of 0..=3; fitness = any i16 as f64"
+#[kani::proof]
+#[kani::unwind(6)]
+fn c08_greedy_add_all_step() {
+    let has_best: bool = kani::any();
+    let prev = any_sol(0);
+    let mut pop = Greedy::new(Arc::new(Obj), 1, if has_best { Some(prev) } else { None });
+
+    let n: usize = kani::any();
+    kani::assume(n <= 3);
+    let batch = [any_sol(1), any_sol(2), any_sol(3)];
+    let individuals = match n {
+        0 => vec![],
+        1 => vec![batch[0]],
+        2 => vec![batch[0], batch[1]],
+        _ => vec![batch[0], batch[1], batch[2]],
+    };
+    let improved = pop.add_all(individuals);
+
+    let best = pop.ranked().next().copied();
+    assert!(best.is_some() == (has_best || n > 0));
+    assert!(pop.size() == usize::from(best.is_some()));
+    if let Some(best) = best {
+        let mut idx = 0;
+        while idx < n {
+            assert!(le(best.f, batch[idx].f));
+            idx += 1;
+        }
+        assert!(!has_best || le(best.f, prev.f));
+        assert!(best.tag as usize <= n && (best.tag != 0 || has_best));
+        assert!(improved == (best.tag != 0));
+    } else {
+        assert!(!improved);
+    }
+    assert!(pop.select().count() == usize::from(best.is_some()));
+    kani::cover!(improved && has_best && n == 3, "improved-by-batch");
+    kani::cover!(!improved && n == 3, "batch-not-better");
+    std::mem::forget(pop);
+}
 
 // Concrete-playback replays (`cargo kani playback`) are compiled from here; the file is written by /verif/check.
 #[cfg(all(kani, test))]
